@@ -29,7 +29,7 @@ REAL_VS_STUB = {'real': ['kyupy.logic_sim.LogicSim (s_to_c, c_prop incl. all thr
                 'stub': ['none: the oracle is the same simulator class run callback-free on the cut circuit (no second multi-valued algebra)']}
 ASSUMPTIONS = ['lanes are independent (C06) - the oracle is evaluated per group of lanes that share the same set of injections',
                'an evaluated signal is a line whose driver is a port/state element, a gate, or a fork that is not stripped in this configuration']
-EXPECTED_PROBES = ['callback_raised_mid_propagation', 'plain_repropagation_after_injection', 'injection_changed_result', 'injection_upstream_of_another', 'untouched_callback_run', 'cycle_api', 'multi_cycle', 'lanes_not_multiple_of_8']
+EXPECTED_PROBES = ['more_than_4096_bytes_per_signal', 'callback_raised_mid_propagation', 'plain_repropagation_after_injection', 'injection_changed_result', 'injection_upstream_of_another', 'untouched_callback_run', 'cycle_api', 'multi_cycle', 'lanes_not_multiple_of_8']
 
 
 def gen(rng, tier, i):
@@ -41,6 +41,8 @@ def gen(rng, tier, i):
     sims_type = rng.choice(['int', 'int', 'int', 'int64', 'int32', 'narrow'])
     if sims_type == 'narrow':      # a lane count that arrives in the narrowest NumPy integer type that holds it, close to that type's limit
         sims_type, sims = rng.choice([('uint8', 250), ('uint8', 255), ('int8', 121), ('int8', 127), ('int16', 300), ('uint8', sims if sims < 256 else 9)])
+    if rng.random() < 0.002 and len(script.get('gates', [])) <= 30:      # a pattern set of production size: more than 4096 bytes per signal (any internal blocking of the lane axis would show to the callback)
+        sims, sims_type, cycles = rng.choice([32769, 32776, 40000]), 'int', min(cycles, 2)
     inj = []
     for cy in range(cycles):
         n = rng.choice([0, 1, 1, 2, 3])
@@ -120,6 +122,7 @@ def execute(case):
     s_len = len(snodes)
     mva = lsim.mv_stimulus(s_len, sims, m, case['vals'])
     if sims % 8: res.probe('lanes_not_multiple_of_8')
+    if sims > 32768: res.probe('more_than_4096_bytes_per_signal')
     if cycles > 1: res.probe('multi_cycle')
     ev_lines = evaluated_lines(c, knobs['strip_forks'])
     if not ev_lines: return res
